@@ -1,3 +1,4 @@
+import DSV.FactsOK.SrcC01
 import DSV.Generated.Facts
 /-! C01 — map-range inventory (one schedule field per site) and purity inventory, as extracted. -/
 namespace DSV.Props.C01.Facts
